@@ -1687,7 +1687,53 @@ def leftover_loop_variables(idx: Index, rep: Report, rule: str, prefixes) -> Non
     rep.require_min(rule, "nested_loops", 5)
 
 
-EXTRA3 = {"C14": c14, "C16": c16, "C15": c15, "C09": c09, "C13": c13, "C07": c07, "C12": c12, "C11": c11, "C10": c10, "C06": c06, "C04": c04, "C05": c05, "C01": c01, "C02": c02, "C03": c03, "C08": c08, "C35": c35, "C38": c38, "C36": c36, "C32": c32, "C33": c33, "C31": c31, "C17": c17, "C25": c25, "C20": c20, "C27": c27, "C28": c28}
+# ------------------------------------------------------------------------------------ C24
+def c24(idx: Index, rep: Report, tier: str) -> None:
+    """check_conflicting_effects records what it accepts in the two containers it is given. They must be the containers
+    registered in the owner's tables (the field itself, or `table.setdefault(timing, …)`): a copy or a throw-away
+    container (`table.get(timing) or {}`) makes the recorded assignment disappear, and later conflicts with it are
+    accepted or rejected depending on the insertion order."""
+    from ..dataflow import reaching_defs, def_value
+
+    rule = "C24.5 T11 bookkeeping-is-the-registered-container"
+    callee = idx.func("model.effect.check_conflicting_effects")
+    pnames = callee.params()
+    n = 0
+    for f in idx.all_funcs():
+        if not f.module.name.startswith("unified_planning.model"):
+            continue
+        cfg = None
+        for c in walk_no_nested(f.node):
+            if not (isinstance(c, ast.Call) and call_name(c) == "check_conflicting_effects"):
+                continue
+            cfg = cfg or cfg_of(f)
+            rd = reaching_defs(cfg)
+            nodes = cfg.node_containing(c)
+            bound = {pnames[i]: a for i, a in enumerate(c.args) if i < len(pnames)}
+            bound.update({k.arg: k.value for k in c.keywords if k.arg})
+            for pn in ("fluents_assigned", "fluents_inc_dec"):
+                a = bound.get(pn)
+                if a is None:
+                    continue
+                n += 1
+                exprs = [a]
+                if isinstance(a, ast.Name) and nodes:
+                    exprs = [v for d in rd[nodes[0]].get(a.id, ()) for v in [def_value(d, a.id)] if v is not None] or [a]
+
+                def registered(e):
+                    if isinstance(e, ast.Attribute) and norm(e.value) == "self":
+                        return True
+                    if isinstance(e, ast.Call) and call_name(e) == "setdefault" and isinstance(e.func.value, ast.Attribute) and norm(e.func.value.value) == "self":
+                        return True
+                    return False
+
+                ok = all(registered(e) for e in exprs)
+                rep.check(ok, rule, f"{f.short}: `{pn}` handed to check_conflicting_effects is the registered container", f.loc(c), construct=f"{pn} = {norm(exprs[0])[:70]}", detail="" if ok else "the conflict check writes into a container that is not (always) the one kept in the owner's table: an accepted assignment can be forgotten, and whether a later conflicting effect is rejected depends on the order of insertion", function=f.qualname)
+    rep.count("bookkeeping_arguments", n)
+    rep.require_min(rule, "bookkeeping_arguments", 6)
+
+
+EXTRA3 = {"C24": c24, "C14": c14, "C16": c16, "C15": c15, "C09": c09, "C13": c13, "C07": c07, "C12": c12, "C11": c11, "C10": c10, "C06": c06, "C04": c04, "C05": c05, "C01": c01, "C02": c02, "C03": c03, "C08": c08, "C35": c35, "C38": c38, "C36": c36, "C32": c32, "C33": c33, "C31": c31, "C17": c17, "C25": c25, "C20": c20, "C27": c27, "C28": c28}
 
 
 def run_extra3(prop: str, idx: Index, rep: Report, tier: str) -> None:
